@@ -44,7 +44,7 @@ var properties = map[string]Property{
 	},
 	"C06": {
 		Level:       "other",
-		Rules:       []string{"R-LOCK", "R-GLOBALS", "R-EVAL-WRITE", "R-TREE-CLOSED", "O-POOL", "R-ENGINE", "R-ERR-PURE", "G-IMPORTS"},
+		Rules:       []string{"R-LOCK", "R-GLOBALS", "R-EVAL-WRITE", "R-TREE-CLOSED", "O-POOL", "R-ENGINE", "R-ERR-PURE", "G-IMPORTS", "L-PROGRESS"},
 		Explanation: "Decided (necessary core; an effect/lockset argument, not a schedule exploration): the parser mutex is locked exactly once, in Parse's entry block, the deferred closure that unlocks it is registered immediately afterwards, Unlock dominates every return of that closure and nothing that can panic precedes it; every function that can hold parser-owned memory is reachable from user-callable entry points only through Parse; every other package-level variable is a sync primitive or never written after init; evaluation writes no memory shared between calls; pooled objects are private between acquire and release. Not decided: interleavings as such; races inside user functions or on documents the caller mutates.",
 		Assumptions: []string{"sync.Mutex and sync.Pool are correct; a sync.Pool object obtained by Get is private until Put"},
 	},
@@ -61,18 +61,18 @@ var properties = map[string]Property{
 	},
 	"C02": {
 		Level:       "other",
-		Rules:       []string{"P-RECOVER", "P-PANICTYPE", "P-ERRCHECK", "P-MEMO", "P-SCT", "ST-UNIFORM", "ST-BALANCE", "ST-TYPES", "ST-FRAMES", "TV-WF", "TV-CATCHALL", "TV-ENGINE", "R-LOCK", "R-RESET", "N-WALK", "N-ENTRY", "G-IMPORTS", "P-SLICEBOUND"},
+		Rules:       []string{"P-RECOVER", "P-PANICTYPE", "P-ERRCHECK", "P-MEMO", "P-SCT", "ST-UNIFORM", "ST-BALANCE", "ST-TYPES", "ST-FRAMES", "TV-WF", "TV-CATCHALL", "TV-ENGINE", "R-LOCK", "R-RESET", "N-WALK", "N-ENTRY", "G-IMPORTS", "P-SLICEBOUND", "L-PROGRESS", "N-STANDIN", "P-ARRAYBOUND"},
 		Explanation: "Decided (large structural part): (i) Parse registers, directly after taking the lock, a deferred closure that calls recover() unconditionally, stores a recovered error into the named error result and writes no other result; every explicit panic in parser code carries one of the four documented types; conversion errors (strconv, regexp, json) panic with a documented type or are propagated; (ii) the value stack is typed by abstract interpretation of the grammar that the generated matcher actually runs (reconstructed by the decompiler, so the result does not depend on the published grammar): every action has one stack effect on all non-panicking paths (implicit defaults of exhaustive type switches are discharged from the producer types of the switched slot), every rule has one net effect, no derivation pops an empty stack or fails an unchecked assertion, frame save/load are paired and never index an empty list, and the start rule leaves the stack empty; the stack is empty at the start of every Parse (R-RESET); (iii) the grammar is well-formed (no left recursion / nullable repetition), the start rule is total, the parser is initialised without options (memoisation on), and hand-written recursion descends on the tree. Not decided: bounded time quantitatively, out-of-memory / stack depth for pathological nesting, bounds checks inside the generated matcher (rely on the end-symbol sentinel appended by reset: compared as boilerplate), the few index expressions in hand-written helpers (varBlockSet[1], literal[0], text[0:1]) which are listed as assumed.",
 		Assumptions: []string{"assumed obligations: varBlockSet[1] in the regexp callback (the pattern has one group), literal[0] (literals are built as one-element slices), text[0:1] in the negation action (the capture is never empty)"},
 	},
 	"C16": {
 		Level:       "other",
-		Rules:       []string{"N-KEYFLOW", "TV-IDENT", "U-BYTES", "R-GLOBALS", "U-DECODE", "W-QUOTES", "G-IMPORTS", "P-SLICEBOUND"},
+		Rules:       []string{"N-KEYFLOW", "TV-IDENT", "U-BYTES", "R-GLOBALS", "U-DECODE", "W-QUOTES", "G-IMPORTS", "P-SLICEBOUND", "P-ARRAYBOUND"},
 		Explanation: "Decided (structural part): the key of every member lookup during evaluation is the stored member name of a single-name step or a key of the object itself (no conversion, concatenation, slicing or call result on the way), and the constructor stores the name it is given verbatim; the identifier rules the running parser implements (character classes, escape alternatives) are those of the published grammar; the hand-written text transducers do not mix byte and character units (no byte-wise copy driven by a rune-wise range); the unescape routines consult no mutable package-level state. Not decided: that the three unescape routines invert JSON-style escaping for every string (a string-transducer equivalence).",
 	},
 	"C17": {
 		Level:       "translation_validation",
-		Rules:       []string{"TV-RULES", "TV-ACTIONS", "TV-WF", "TV-CATCHALL", "TV-ENGINE", "P-RESTRICT", "P-ERRCHECK", "P-PANICTYPE", "U-INDEX", "U-RUNELEN", "N-GETSET", "N-VGSUM", "N-ENTRY", "G-IMPORTS", "N-VGFLAG"},
+		Rules:       []string{"TV-RULES", "TV-ACTIONS", "TV-WF", "TV-CATCHALL", "TV-ENGINE", "P-RESTRICT", "P-ERRCHECK", "P-PANICTYPE", "U-INDEX", "U-RUNELEN", "N-GETSET", "N-VGSUM", "N-ENTRY", "G-IMPORTS", "N-VGFLAG", "N-STANDIN"},
 		Explanation: "Translation validation of the generated packrat parser against the published grammar: each of the grammar's rules is decompiled from the goto-template code of its rule function or inlined copies and shown equivalent after normalisation (literals to rune sequences, classes to interval sets, e+ to e e*, `-switch` choices under FIRST-set side conditions); every action body in Execute equals the grammar's action as Go syntax; the grammar-independent engine is the generator's boilerplate; the start rule is total and its catch-all captures the rest after the longest path prefix. Plus: every documented semantic restriction is enforced where the construct is built; the reported position is a character index taken from the token tree and is never used to slice a byte string. Not decided: that strconv / regexp accept what the prose calls 'valid for Go' (they are the definition).",
 	},
 	"C18": {
@@ -82,13 +82,13 @@ var properties = map[string]Property{
 	},
 	"C03": {
 		Level:       "other",
-		Rules:       []string{"P-POST-NONEMPTY", "P-RTERR", "P-PANICTYPE", "P-ASSERT", "P-NILGUARD", "P-IFACE-EQ", "V-VALIDATED", "V-ACCEPT", "V-TWO-CURRENT", "V-BOOL", "L-CLASS", "P-SCT", "O-SEQ", "I-OVERFLOW", "I-RANGE", "I-BUF", "I-PROGRESS", "R-ITER-STABLE", "N-ENTRY", "P-NILRET", "G-IMPORTS", "N-ERRWIRE"},
+		Rules:       []string{"P-POST-NONEMPTY", "P-RTERR", "P-PANICTYPE", "P-ASSERT", "P-NILGUARD", "P-IFACE-EQ", "V-VALIDATED", "V-ACCEPT", "V-TWO-CURRENT", "V-BOOL", "L-CLASS", "P-SCT", "O-SEQ", "I-OVERFLOW", "I-RANGE", "I-BUF", "I-PROGRESS", "R-ITER-STABLE", "N-ENTRY", "P-NILRET", "G-IMPORTS", "N-ERRWIRE", "L-PROGRESS", "N-STANDIN", "P-ARRAYBOUND"},
 		Explanation: "Decided (structural part): (i) every return of a retrieve-family function is a fresh error value, the result of a step on the same sink, a variable proven non-nil, or nil on a path where the sink is known non-empty (must-analysis over appends and len(result)>0 edges), so success is never empty and every result[0] read follows a successful step; (ii) only the three documented runtime error types are converted to the runtime-error interface, each implements error, and ErrorFunctionFailed is built only under a non-nil error of a user-function call; (iii) no explicit panic in evaluation code, reflect.TypeOf(x) dereferenced only under x != nil, every unchecked assertion is a pool element, a runtime error asserted to error, or a validated comparator operand, and every interface comparison has a nil / comparable-concrete operand or validated operands; (iv) recursion cycles descend on the tree and loops are counted/range/worklist loops. Also decided: the logical nodes index a verdict list member by member only on paths where it is known not to be a one-element list and read X[0] only under len(X)==1 (V-BOOL); the right operand is read out of its list after validation succeeded (V-VALIDATED); a comparison between two per-member operands is rejected at parse time for every comparator (V-TWO-CURRENT); no loop walks a list that steps called inside it can reach and overwrite (R-ITER-STABLE). every verdict list a query returns has length 1 or the member count (L-CLASS, inductive over the query family), and the filter reads result[0] only where the length differs from the member count. Not decided: time bounds beyond termination. Also decided (v): subscript arithmetic cannot overflow, produced indices lie in [0, length-1], buffer writes are in range and subscript loops terminate (zone abstract interpretation, see C11).",
 		Assumptions: []string{"the sorted key list of an object has as many entries as the object (shown by O-MAPRANGE under C07: resliced to len(map), one key stored per iteration)"},
 	},
 	"C08": {
 		Level:       "other",
-		Rules:       []string{"N-FORWARD", "N-DEEPEST", "O-SEQ", "O-LIFO", "B-CHAIN", "N-PRESENCE", "N-WALK", "R-ITER-STABLE", "N-GETSET", "N-ENTRY", "N-APPLY", "G-IMPORTS"},
+		Rules:       []string{"N-FORWARD", "N-DEEPEST", "O-SEQ", "O-LIFO", "B-CHAIN", "N-PRESENCE", "N-WALK", "R-ITER-STABLE", "N-GETSET", "N-ENTRY", "N-APPLY", "G-IMPORTS", "N-DEEPRULE"},
 		Explanation: "Decided (structural part): every call of a step (retrieve on the next node, or one of the retrieve-family helpers) passes the caller's own root and the caller's own sink (or a private pooled sink), the emitters hand the next step exactly the value they would emit themselves (container[key] of their parameters); fan-out loops are complete and leave only through their loop condition, branch errors are only accumulated through the deepest-error helper; the chain builder re-assigns its link target from the current step on every iteration. Also decided: every per-node setting the parser applies to a node that may be a multi-name selector — next link, texts, accessor flag — also reaches the member nodes the selector evaluates into the same result list, with the same value and under no flag evaluation does not use for that edge (N-WALK; this is where the `$..['a','b'].c` defect was found, now fixed); presence of a member is decided by comma-ok lookups, so a null member is a member (N-PRESENCE); no step walks a list that the following steps can overwrite (R-ITER-STABLE). Not decided: the relational equality of the three retrievals as such.",
 	},
 	"C09": {
@@ -109,12 +109,12 @@ var properties = map[string]Property{
 	},
 	"C12": {
 		Level:       "other",
-		Rules:       []string{"N-ACCESS", "N-ACCFLAG", "N-PRESENCE", "N-WALK", "N-CTOR", "N-GETSET", "N-APPLY", "G-IMPORTS"},
+		Rules:       []string{"N-ACCESS", "N-ACCFLAG", "N-PRESENCE", "N-WALK", "N-CTOR", "N-GETSET", "N-APPLY", "G-IMPORTS", "N-STANDIN", "R-SETTER"},
 		Explanation: "Decided (structural part): each of the three emission sites has one plain and one accessor branch selected by the node's own flag, and the accessor's Get re-reads exactly the location (or value) the plain branch emits; the flag-clearing pass sets the flag on every node it walks over and covers every retrieve edge that emits into the parent's sink (inner identifiers of a multi-name selector, its union twin); every place that attaches a chain as function argument or filter operand clears the flag on it. Not decided: equality of the two result sequences as such.",
 	},
 	"C13": {
 		Level:       "other",
-		Rules:       []string{"N-ACCESS", "N-FORWARD", "R-SET-USERONLY", "N-PRESENCE", "N-WALK", "N-CTOR", "N-APPLY", "G-IMPORTS"},
+		Rules:       []string{"N-ACCESS", "N-FORWARD", "R-SET-USERONLY", "N-PRESENCE", "N-WALK", "N-CTOR", "N-APPLY", "G-IMPORTS", "R-SETTER"},
 		Explanation: "Decided (large structural part): at the map and list emission sites Get is the single expression container[key] and Set is exactly one assignment container[key] = value, both on the very container and key variables (captured once, never re-assigned) that the plain branch reads; at the any-value site Get returns the captured value and Set is nil; the value forwarded to the next step is the emitted one; the library never calls the closures it hands out. Not decided: that the accessor at result index i belongs to the location a specification predicts.",
 	},
 	"C14": {
@@ -124,7 +124,7 @@ var properties = map[string]Property{
 	},
 	"C15": {
 		Level:       "other",
-		Rules:       []string{"N-KIND", "P-NILGUARD", "P-RTERR", "N-DEEPEST", "N-WALK", "N-GETSET", "R-ERR-PURE", "N-DELEGATE", "G-IMPORTS", "N-CTOR", "N-ERRWIRE"},
+		Rules:       []string{"N-KIND", "P-NILGUARD", "P-RTERR", "N-DEEPEST", "N-WALK", "N-GETSET", "R-ERR-PURE", "N-DELEGATE", "G-IMPORTS", "N-CTOR", "N-ERRWIRE", "N-DEEPRULE"},
 		Explanation: "Decided (structural part): every type-mismatch error is built under failed type tests of the node's current value, its expected-kind text is in one-to-one correspondence with the set of container kinds the node navigates, its found text is a constant for nil and reflect.TypeOf(current).String() of that same value under a nil guard, and it references the raising node's own descriptor; inside fan-out loops the surviving error is chosen only by the deepest-error helper. Not decided: which of several branch errors is reported (depends on text lengths / traversal order).",
 	},
 	"C20": {
@@ -134,7 +134,7 @@ var properties = map[string]Property{
 	},
 	"C19": {
 		Level:       "other",
-		Rules:       []string{"R-RESET", "R-PEGRESET", "R-CONFIG", "R-TREE-CLOSED", "R-LOCK", "R-GLOBALS", "R-ENGINE", "N-ENTRY", "G-IMPORTS"},
+		Rules:       []string{"R-RESET", "R-PEGRESET", "R-CONFIG", "R-TREE-CLOSED", "R-LOCK", "R-GLOBALS", "R-ENGINE", "N-ENTRY", "G-IMPORTS", "R-SETTER"},
 		Explanation: "Decided (necessary core): every field of the global parser's action state that any Parse-phase function writes is zeroed by the deferred closure on every exit of Parse (whole-struct store of the zero value, or field-complete), also on panic; every matcher variable captured by rule closures and written during matching is assigned by the generated reset closure on every path (token tree: overwritten from index 0 and trimmed on success); pointers to the caller's Config are stored only into that action state; the returned function reaches no Config maps and no parser-owned memory, and persistent parser memory reaches no tree; no package-level variable other than the lock-protected parser is written after init (so no cache keyed by path can exist). Not decided: equality of outcomes across histories as such.",
 	},
 }
